@@ -28,6 +28,8 @@ func main() {
 	mutant := flag.String("mutant", "", "self-test: apply mutant <id> through an in-memory overlay")
 	noEvidence := flag.Bool("no-evidence", false, "do not write evidence/replay files (self-test)")
 	listMutants := flag.Bool("list-mutants", false, "list mutant ids for -property")
+	var overlays multiFlag
+	flag.Var(&overlays, "overlay", "debug: <repo-relative file>=<replacement file>; analysed instead of the file on disk (repeatable)")
 	flag.Parse()
 	start := time.Now()
 
@@ -44,6 +46,20 @@ func main() {
 	}
 
 	c := ctx.New(*repo, *verif, *tier)
+	for _, o := range overlays {
+		i := strings.Index(o, "=")
+		if i < 0 {
+			fmt.Println("bad -overlay", o)
+			os.Exit(2)
+		}
+		b, err := os.ReadFile(o[i+1:])
+		if err != nil {
+			fmt.Println(err)
+			os.Exit(2)
+		}
+		c.Overlay[filepath.Join(*repo, o[:i])] = b
+		*noEvidence = true
+	}
 
 	var wantKey string
 	if *replay != "" {
@@ -164,6 +180,11 @@ func main() {
 	}
 	os.Exit(res.ExitCode)
 }
+
+type multiFlag []string
+
+func (m *multiFlag) String() string     { return strings.Join(*m, ",") }
+func (m *multiFlag) Set(v string) error { *m = append(*m, v); return nil }
 
 func isFlagSet(name string) bool {
 	set := false
